@@ -1320,6 +1320,32 @@ impl Domain for Dm {
                 b.extend(rng.bytes(16));
                 writeln!(w, "msg {} {} -", p, to_hex(&b)).unwrap();
             }
+            // a known UUID with a valid body behind every small raw id value (also negative ones and
+            // overlong encodings): only the raw ids 0 and 1 announce a UUID; anything else that
+            // splits into ordinal 0 by a different rounding (e.g. -1 with `/ 2`) must be rejected
+            for (kind, tab) in [("sys", pr.system), ("game", pr.game)] {
+                for d in tab {
+                    if let Id::Uuid(u) = &d.id {
+                        let cs = sweep(d.members, &mut rng, true, 0);
+                        for raw in -4i32..=4 {
+                            let mut encs = vec![write_int(raw)];
+                            let first = encs[0][0];
+                            encs.push(vec![first | 0x80, 0x00]);
+                            for idb in encs {
+                                let mut b = idb.clone();
+                                b.extend_from_slice(u);
+                                b.extend_from_slice(&cs[0].wire);
+                                let canon = idb.len() == 1 && raw == (kind == "sys") as i32;
+                                if canon {
+                                    writeln!(w, "msg {} {} {}", p, to_hex(&b), expect_of(&cs[0])).unwrap();
+                                } else {
+                                    writeln!(w, "msg {} {} -", p, to_hex(&b)).unwrap();
+                                }
+                            }
+                        }
+                    }
+                }
+            }
             for id in [i32::MAX, i32::MIN, 1 << 30, -(1 << 30), 0x3fff_ffff] {
                 writeln!(w, "msg {} {} -", p, to_hex(&write_int(id))).unwrap();
             }
